@@ -173,6 +173,12 @@ func (w *World) summarize(point string, kv []any) map[string]any {
 			"removed": di.IsRemoved(), "nopresdoc": di.DisablePresence}
 	case "pp.pull.after":
 		return map[string]any{"init": kv[2].(int64)}
+	case "db.vv.between":
+		return map[string]any{}
+	case "lock.wait", "lock.acquired", "lock.released":
+		return map[string]any{"key": kv[0], "mode": kv[1]}
+	case "lock.try":
+		return map[string]any{"key": kv[0], "ok": kv[1]}
 	case "pp.vv.after":
 		return map[string]any{"min": w.vv(kv[2].(time.VersionVector))}
 	case "pp.exit":
